@@ -584,13 +584,105 @@ theorem dscpM_fromHeaders_maskO (o : OHeaders) : v.dscpM (fromHeaders (maskO o))
     simp [← this]
   · rfl
 
+/-! ### repair C03-K7: the ARP branch only behind dl_type 0x0806
+
+Transfer by input normalisation again: the guarded extraction of `p` is the unguarded extraction of `guardP p` (an `arp` object behind
+another dl_type is not looked at — as if nothing the code recognises followed), and `guardP` leaves every regular frame alone. -/
+
+/-- the frame as the guarded ARP branch sees it -/
+def guardP (p : PHdr) : PHdr :=
+  if v.arpTypeGuard && arpReached p && (v.extract true p none).dlType != some 0x0806 then { p with l3 := .other } else p
+
+theorem guardP_off (h : v.arpTypeGuard = false) (p : PHdr) : v.guardP p = p := by simp [guardP, h]
+
+/-- the dl_type `from_packet` assigns does not depend on the L3 object, on `spec_frags`, on the in_port or on the opcode guard -/
+theorem extractG_dlType (g g' sf sf' : Bool) (src dst typ : Nat) (llc : Option Llc) (vlan : Option Vlan) (x y : L3) (ip ip' : Option Nat) :
+    (extractG g sf ⟨src, dst, typ, llc, vlan, x⟩ ip).dlType = (extractG g' sf' ⟨src, dst, typ, llc, vlan, y⟩ ip').dlType := by
+  have key : ∀ (g sf : Bool) (x : L3) (ip : Option Nat), (extractG g sf ⟨src, dst, typ, llc, vlan, x⟩ ip).dlType =
+      (extractG true true ⟨src, dst, typ, llc, vlan, .other⟩ none).dlType := by
+    intro g sf x ip
+    cases x with
+    | other =>
+      cases vlan <;> cases llc with
+      | none => simp [extractG]
+      | some l => by_cases hs : l.snapOui = some 0 <;> simp [extractG, hs]
+    | arp op s d =>
+      cases vlan <;> cases llc with
+      | none => cases g <;> simp [extractG] <;> (try split) <;> rfl
+      | some l => by_cases hs : l.snapOui = some 0 <;> cases g <;> simp [extractG, hs] <;> (try split) <;> rfl
+    | ipv4 s d pr tos frag l4 =>
+      cases vlan <;> cases llc with
+      | none => cases frag <;> cases sf <;> cases l4 <;> simp [extractG]
+      | some l => by_cases hs : l.snapOui = some 0 <;> cases frag <;> cases sf <;> cases l4 <;> simp [extractG, hs]
+  rw [key g sf x ip, key g' sf' y ip']
+
+/-- the ARP branch not taken = nothing recognised behind the headers -/
+theorem clearArp_extractG (g sf : Bool) (p : PHdr) (ip : Option Nat) (h : arpReached p = true) :
+    clearArp (extractG g sf p ip) = extractG g sf { p with l3 := .other } ip := by
+  obtain ⟨src, dst, typ, llc, vlan, l3⟩ := p
+  cases l3 with
+  | ipv4 s d pr tos frag l4 => simp [arpReached] at h
+  | other => simp [arpReached] at h
+  | arp op s d =>
+    cases vlan <;> cases llc with
+    | none => cases g <;> simp [extractG, clearArp] <;> (try split) <;> simp
+    | some l =>
+      have hs : l.snapOui = some 0 := by simpa [arpReached] using h
+      cases g <;> simp [extractG, clearArp, hs] <;> (try split) <;> simp
+
+/-- guarded extraction of `p` = unguarded extraction of `guardP p` (before the ToS step) -/
+theorem guard_extract (sf : Bool) (p : PHdr) (ip : Option Nat) :
+    (if v.arpTypeGuard && arpReached p && (v.extract sf p ip).dlType != some 0x0806 then clearArp (v.extract sf p ip) else v.extract sf p ip)
+      = v.extract sf (v.guardP p) ip := by
+  have hd : (v.extract sf p ip).dlType = (v.extract true p none).dlType := by
+    obtain ⟨src, dst, typ, llc, vlan, l3⟩ := p
+    exact extractG_dlType _ _ _ _ _ _ _ _ _ _ _ _ _
+  unfold guardP
+  rw [hd]
+  split
+  · rename_i hc
+    have ha : arpReached p = true := by
+      simp only [Bool.and_eq_true] at hc; exact hc.1.2
+    exact clearArp_extractG _ _ _ _ ha
+  · rfl
+
 theorem pktHeaders_eq (hv : v.tosDscp = true) (sf : Bool) (p : PHdr) (ip : Option Nat) :
-    v.pktHeaders sf p ip = maskO (v.extract sf p ip) := by
+    v.pktHeaders sf p ip = maskO (v.extract sf (v.guardP p) ip) := by
+  rw [← guard_extract]
   simp [pktHeaders, hv, maskO]
 
 theorem pktHeaders_raw (hv : v.tosDscp = false) (sf : Bool) (p : PHdr) (ip : Option Nat) :
-    v.pktHeaders sf p ip = v.extract sf p ip := by
+    v.pktHeaders sf p ip = v.extract sf (v.guardP p) ip := by
+  rw [← guard_extract]
   simp [pktHeaders, hv]
+
+/-- a regular frame has its `arp` object behind dl_type 0x0806 only: the guard changes nothing -/
+theorem guardP_regular (g : Bool) (p : PHdr) (hr : regularG g p = true) : v.guardP p = p := by
+  unfold guardP
+  split
+  · rename_i hc
+    exfalso
+    simp only [Bool.and_eq_true] at hc
+    obtain ⟨⟨_, ha⟩, hd⟩ := hc
+    obtain ⟨src, dst, typ, llc, vlan, l3⟩ := p
+    cases l3 with
+    | ipv4 s d pr tos frag l4 => simp [arpReached] at ha
+    | other => simp [arpReached] at ha
+    | arp op s d =>
+      unfold Variant.extract at hd
+      rw [extractG_dlType _ true _ true src dst typ llc vlan _ .other none none] at hd
+      revert hd
+      cases vlan <;> cases llc with
+      | none =>
+        simp [regularG, Spec.dlTypeOf, Spec.etherType] at hr ⊢
+        simp [extractG]
+        first | exact hr.1 | (split <;> simp_all)
+      | some l =>
+        have hs : l.snapOui = some 0 := by simpa [arpReached] using ha
+        simp [regularG, Spec.dlTypeOf, Spec.etherType, hs] at hr ⊢
+        simp [extractG, hs]
+        first | exact hr.2.1 | (have h2 := hr.2.1; rw [if_pos hr.1] at h2; exact h2)
+  · rfl
 
 theorem mww_raw (hv : v.tosDscp = false) (c : Bool) (a b : OfMatch) : v.mww c a b = OfMatch.matchesWith c a b := by
   simp [mww, dscpM, hv]
@@ -599,11 +691,12 @@ theorem mww_raw (hv : v.tosDscp = false) (c : Bool) (a b : OfMatch) : v.mww c a 
 theorem accepts_packet (r : OfMatch) (p : PHdr) (port : Nat) (hp : v.prereqExact = false → PrereqExact r)
     (ht : v.tosDscp = false → r.nwTos % 4 = 0 ∧ pktTos p % 4 = 0) (hr : v.regular p = true) :
     v.mww false (v.ofWire r) (v.pktMatch p port) = Spec.matchHdr r (Spec.headers p port) := by
+  have hg : v.guardP p = p := v.guardP_regular _ p hr
   cases hv : v.tosDscp
-  · rw [mww_raw v hv, pktMatch, pktHeaders_raw v hv]
+  · rw [mww_raw v hv, pktMatch, pktHeaders_raw v hv, hg]
     exact wire_accepts_packet v r p port hp (ht hv).1 hr (ht hv).2
   · unfold mww
-    rw [dscpM_ofWire v hv, pktMatch, pktHeaders_eq v hv, dscpM_fromHeaders_maskO]
+    rw [dscpM_ofWire v hv, pktMatch, pktHeaders_eq v hv, hg, dscpM_fromHeaders_maskO]
     have he : maskO (v.extract true p (some port)) = v.extract true (maskP p) (some port) := (extractG_maskP _ _ _ _).symm
     rw [he, ← matchHdr_dscpR r, ← headers_maskP p port]
     have hr' : v.regular (maskP p) = true := by unfold Variant.regular; rw [regularG_maskP]; exact hr
@@ -624,10 +717,10 @@ theorem subsumes_code (a b : OfMatch) (ha : v.prereqExact = false → PrereqExac
 theorem selfflow_mww (sf : Bool) (p : PHdr) (ip : Option Nat) :
     v.mww false (v.ofWire (packFlowMod (fromHeaders (v.pktHeaders sf p ip)))) (fromHeaders (v.pktHeaders sf p ip)) = true := by
   cases hv : v.tosDscp
-  · rw [mww_raw v hv, pktHeaders_raw v hv]; exact v.selfflow_accepts sf p ip
+  · rw [mww_raw v hv, pktHeaders_raw v hv]; exact v.selfflow_accepts sf (v.guardP p) ip
   · unfold mww
     rw [pktHeaders_eq v hv, dscpM_ofWire v hv, dscpM_fromHeaders_maskO]
-    generalize v.extract sf p ip = o
+    generalize v.extract sf (v.guardP p) ip = o
     have hW : dscpR (packFlowMod (fromHeaders (maskO o))) = packFlowMod (fromHeaders (maskO o)) := by
       have hv' : (fromHeaders (maskO o)).view .nwTos = (maskO o).nwTos := fromHeaders_view (maskO o) .nwTos
       have : (packFlowMod (fromHeaders (maskO o))).nwTos % 4 = 0 := by
@@ -779,13 +872,14 @@ theorem Variant.selfflow_exact (v : Variant) (hv : v.exactSig = true) (p : PHdr)
 /-- … for the match the variant's `from_packet` really builds (ToS reduced to DSCP with repair D36) -/
 theorem Variant.selfflow_exact_pkt (v : Variant) (hv : v.exactSig = true) (p : PHdr) (port : Nat) (hr : v.regular p = true) :
     v.isWildcarded (v.ofWire (packFlowMod (v.pktMatch p port))) = false := by
+  have hg : v.guardP p = p := v.guardP_regular _ p hr
   cases ht : v.tosDscp
   · have e : v.pktMatch p port = v.fromPacket p port := by
-      unfold Variant.pktMatch Variant.fromPacket; rw [Variant.pktHeaders_raw v ht]
+      unfold Variant.pktMatch Variant.fromPacket; rw [Variant.pktHeaders_raw v ht, hg]
     rw [e]; exact v.selfflow_exact hv p port hr
   · have e : v.pktMatch p port = v.fromPacket (Variant.maskP p) port := by
       unfold Variant.pktMatch Variant.fromPacket
-      rw [Variant.pktHeaders_eq v ht]
+      rw [Variant.pktHeaders_eq v ht, hg]
       exact congrArg fromHeaders (Variant.extractG_maskP _ _ _ _).symm
     rw [e]
     exact v.selfflow_exact hv (Variant.maskP p) port (by unfold Variant.regular; rw [Variant.regularG_maskP]; exact hr)
